@@ -13,7 +13,7 @@ pub enum OsIpcSelectionResult {
 }
 pub struct OpaqueIpcMessage {
     pub data: Vec<u8>,
-    pub os_ipc_channels: Vec<OsOpaqueIpcChannel>,
+    pub os_ipc_channels: Vec<Option<OsOpaqueIpcChannel>>,
     pub os_ipc_shared_memory_regions: Vec<Option<OsIpcSharedMemory>>,
 }
 pub enum IpcSelectionResult { MessageReceived(u64, OpaqueIpcMessage), ChannelClosed(u64) }
@@ -31,7 +31,7 @@ pub open spec fn wrapped<T>(s: Seq<T>) -> Seq<Option<T>> { Seq::new(s.len(), |i:
 pub open spec fn event_ok(o: OsIpcSelectionResult, r: IpcSelectionResult) -> bool {
     match o {
         OsIpcSelectionResult::DataReceived(id, d, c, m) => r matches IpcSelectionResult::MessageReceived(id2, msg)
-            && id2 == id && msg.data@ == d@ && msg.os_ipc_channels@ == c@ && msg.os_ipc_shared_memory_regions@ == wrapped(m@),
+            && id2 == id && msg.data@ == d@ && msg.os_ipc_channels@ == wrapped(c@) && msg.os_ipc_shared_memory_regions@ == wrapped(m@),
         OsIpcSelectionResult::ChannelClosed(id) => r matches IpcSelectionResult::ChannelClosed(id2) && id2 == id,
     }
 }
@@ -62,3 +62,11 @@ pub fn wrap_some<T>(v: Vec<T>) -> (r: Vec<Option<T>>)
 // serde's traits (stand-ins, D6): only mentioned in a where clause here
 pub trait Serialize {}
 pub trait Deserialize<'de>: Sized {}
+
+impl OpaqueIpcMessage {
+    // OpaqueIpcMessage::new (under contract in unit U10)
+    #[verifier::external_body]
+    pub fn new(data: Vec<u8>, os_ipc_channels: Vec<OsOpaqueIpcChannel>, os_ipc_shared_memory_regions: Vec<OsIpcSharedMemory>) -> (r: OpaqueIpcMessage)
+        ensures r.data@ == data@, r.os_ipc_channels@ == wrapped(os_ipc_channels@), r.os_ipc_shared_memory_regions@ == wrapped(os_ipc_shared_memory_regions@)
+    { unimplemented!() }
+}
